@@ -15,4 +15,6 @@ def run(ctx):
         c.prefix = "C02" + c.prefix[3:]
         ex, obs = add_to_ctx(ctx, c, F.reindex_callees())
         n += len(obs)
-    return note + f" reindex_intermediates / reindex_ / reindex_numpy: {n} obligations."
+    from . import combine_proofs
+
+    return note + f" reindex_intermediates / reindex_ / reindex_numpy: {n} obligations." + combine_proofs.run(ctx, "C02")
